@@ -62,7 +62,7 @@ META2 = {
         explanation="k_num.c: the real parse_write_args -> parse_int/uint_decimal / parse_num_hexadecimal -> validate_*_range sequence on an argument text of symbolic length and content, symbolic "
                     "access mode, previous contents, need_all_vars, variable-callback result and first/second argument position; accept/reject, stored value, write_size and untouched neighbours "
                     "are compared with a reference that decides by significant-digit count (cannot wrap).",
-        bounds={"quick": "text length 0..12 with data_size symbolic in {1,2,3,4} for all three numeric types, plus text length 0..24 (beyond 2^64) for uint/hex at data_size 1",
+        bounds={"quick": "text length 0..12 with data_size symbolic in {1,2,3,4} for all three numeric types, plus text length 0..24 (beyond 2^64) for all three types at data_size 1",
                 "thorough": "text length 0..24, data_size 1,2,4 and unsupported 3 as separate jobs, all three numeric types"},
         outside="texts longer than 24 characters; argument positions beyond the 2nd; the line-level path (C06 decides that the text reaches the parser unchanged)",
         assumptions=["the argument text reaches parse_write_args exactly as typed (C06)"],
@@ -71,7 +71,7 @@ META2 = {
         engine=E1,
         explanation="k_buf.c: the real parse_write_args -> parse_buffer_hexadecimal / parse_buffer_string on a symbolic text, variable of symbolic data_size 1..8 embedded between canaries, symbolic access, "
                     "callback result and argument position; reference decoders written as explicit automata decide accept/reject, decoded bytes, NUL, write_size; canaries decide 'no byte at or beyond data_size'.",
-        bounds={"quick": "text length 0..10, data_size 1..8", "thorough": "text length 0..20, data_size 1..8"},
+        bounds={"quick": "text length 0..16, data_size 1..8", "thorough": "text length 0..20, data_size 1..8"},
         outside="data_size 9..64 (same loops), texts longer than 20 characters",
         assumptions=["a top-level comma inside the text is modelled by the explicit second-argument flag only"],
         level_text="bounded model checking of the real decoders against reference automata"),
@@ -90,9 +90,9 @@ META2 = {
         engine=E1,
         explanation="k_rt.c: for symbolic values of 1-2 read-write variables the real READ formatter (start_processing_format_read_args + format_read_args) produces the argument list, the variables are "
                     "scrambled, and the real WRITE parser (parse_write_args) must accept that text and restore every value. snprintf is the witness-style model validated against libc.",
-        bounds={"quick": "every bit pattern of 8/16-bit signed, unsigned, hex and 32-bit hex; all byte-buffer contents and all strings (any non-NUL byte) for data_size 1..8; homogeneous pairs at 8 bit; "
+        bounds={"quick": "every bit pattern of 8/16/32-bit signed, unsigned and hex variables; all byte-buffer contents and all strings (any non-NUL byte) for data_size 1..8; homogeneous pairs at 8 bit; "
                          "command-buffer capacity symbolic from 6 bytes up to 16 / 22 (a response that does not fit must be refused, never cut and then accepted back)",
-                "thorough": "additionally 32-bit signed/unsigned over the full range (Kissat) and all 25 ordered type pairs"},
+                "thorough": "additionally all 25 ordered type pairs"},
         outside="data_size 9..64; three or more variables; the line-level loop (C06 + C10 carry the text through the parser unchanged)",
         assumptions=["snprintf model (k_snprintf validation)", "strings are NUL-terminated inside data_size (length < data_size, the property's domain)"],
         level_text="bounded model checking over the complete value range of each listed type/width"),
